@@ -62,7 +62,9 @@ HAS_CE = ("D1BP", "HV1BP", "L1BP", "D2BP", "L2BP")
 # A geometry is {"name", "tensors": [[labels] per tensor], "sites": [site of
 # each tensor], "cls": graph|hyper|lazy}.  Labels: x* bonds, z* second bond of
 # a doubled edge, y* bond inside a lazy site, h* hyper labels, d* dangling
-# (summed) labels of 1-norm networks, k<site> physical labels (2-norm).
+# (summed) labels of 1-norm networks, k<site> physical labels (2-norm), q<site>
+# / r<site> a second (size 3) and third (size 2) dangling label of a 2-norm
+# site ("tree operators": sites with several open legs of different sizes).
 
 
 def _geom(name, tensors, sites=None, cls="graph"):
@@ -70,23 +72,31 @@ def _geom(name, tensors, sites=None, cls="graph"):
 
 
 def tree_geom(n, idx, edges, phys="none", fat="plain"):
-    """phys: none | all | alt (even nodes).  fat: plain | split (two tensors
-    per site joined by an inner bond) | double (every edge is two bonds)."""
+    """phys: none | all | alt (even nodes) | op (k on every site, a second
+    dangling label q of size 3 on even sites, a third one r on site 0).  fat:
+    plain | split (two tensors per site joined by an inner bond) | double
+    (every edge is two bonds)."""
     inc = [[] for _ in range(n)]
     for k, (a, b) in enumerate(edges):
         for s in (a, b):
             inc[s].append("x%d" % k)
             if fat == "double":
                 inc[s].append("z%d" % k)
-    ph = {"none": [], "all": list(range(n)), "alt": [i for i in range(n) if i % 2 == 0]}[phys]
+    ph = {"none": [], "all": list(range(n)), "alt": [i for i in range(n) if i % 2 == 0], "op": list(range(n))}[phys]
+
+    def extra(i):
+        if phys != "op":
+            return []
+        return (["q%d" % i] if i % 2 == 0 else []) + (["r%d" % i] if i == 0 else [])
+
     name = "tree%d.%d" % (n, idx) + ("" if phys == "none" else ":" + phys) + ("" if fat == "plain" else ":" + fat)
     if fat != "split":
-        tensors = [inc[i] + (["k%d" % i] if i in ph else []) for i in range(n)]
+        tensors = [inc[i] + (["k%d" % i] if i in ph else []) + extra(i) for i in range(n)]
         return _geom(name, tensors, cls="lazy" if fat == "double" else "graph")
     tensors, sites = [], []
     for i in range(n):
         tensors.append(["y%d" % i] + inc[i][0::2] + (["k%d" % i] if i in ph else []))
-        tensors.append(["y%d" % i] + inc[i][1::2])
+        tensors.append(["y%d" % i] + inc[i][1::2] + extra(i))
         sites += [i, i]
     return _geom(name, tensors, sites, cls="lazy")
 
@@ -133,6 +143,8 @@ def label_dims(g, dims):
                 continue
             if l.startswith("k"):
                 out[l] = 2 + (int(l[1:]) % 2 if dims == "mix" else 0)
+            elif l[0] in "qr":
+                out[l] = 3 if l[0] == "q" else 2
             else:
                 out[l] = (2 + j % 2) if dims == "mix" else int(dims)
                 j += 1
@@ -140,7 +152,13 @@ def label_dims(g, dims):
 
 
 def phys_labels(g):
+    """The site labels k<site> (one per physical site: site_ind_id 'k{}')."""
     return [l for t in g["tensors"] for l in t if l.startswith("k")]
+
+
+def out_labels(g):
+    """Every dangling label of a 2-norm network (k, q, r)."""
+    return [l for t in g["tensors"] for l in t if l[0] in "kqr"]
 
 
 KIND = {"positive": ("positive", "float64"), "signed": ("generic", "float64"), "complex": ("generic", "complex128")}
@@ -189,7 +207,7 @@ def _exact(gjson, dims, data, mode, exponent):
     if mode != "2":
         ex["Z"] = X.value(arrs, exponent)
     else:
-        outs = phys_labels(g)
+        outs = out_labels(g)
         psi = X.dense(arrs, outs, exponent)
         ex["outs"] = outs
         ex["psi"] = psi
@@ -746,7 +764,7 @@ def _entries_D2BP(E, cell, g, arrs, ex, tn, bp):
     if outs:
         E.arrays("compute_marginal", lambda: [(ix, bp.compute_marginal(ix), X.phys_marginal(psi, ax)) for ax, ix in enumerate(outs)])
     wheres = _connected_wheres(g) if cell.get("structured") else []
-    axis = {int(l[1:]): ax for ax, l in enumerate(outs)}
+    axis = {int(l[1:]): ax for ax, l in enumerate(outs) if l.startswith("k")}
     if wheres:
         E.arrays("partial_trace", lambda: [(str(w), bp.partial_trace(w), X.rdm(psi, [axis[s] for s in w])) for w in wheres], what="marginal")
     _tensor_entry(E, "compress(max_bond=None)", lambda: bp.compress(max_bond=None, cutoff=0.0), ex)
@@ -821,7 +839,7 @@ def _entries_L2BP(E, cell, g, arrs, ex, tn, bp):
     E.scalar("contract(strip_exponent)", lambda: bp.contract(strip_exponent=True), N2)
     if cell.get("ce"):
         E.scalar("zvals[-1]", lambda: bp.zvals[-1], N2)
-    axis = {int(l[1:]): ax for ax, l in enumerate(outs)}
+    axis = {int(l[1:]): ax for ax, l in enumerate(outs) if l.startswith("k")}
     if cell.get("structured") and outs and n_sites(g) >= 2:
         E.arrays("partial_trace", lambda: [("site %d" % s, bp.partial_trace(s), X.rdm(psi, [axis[s]])) for s in sorted(axis)], what="marginal")
     fresh_tn = lambda: build_tn(g, arrs, cell["ord"], exp, structured=bool(cell.get("structured")))  # noqa: E731
@@ -924,10 +942,13 @@ def cell_sample(cell, common=None):
     if f == "D2BP":
         sig["messages"] = "shared-dict" if cell.get("share") else "default-None"
     tn = build_tn(g, arrs, cell["ord"])
-    key = (f, g["name"], cell["dims"], cell["data"], cell["seed"], cell.get("bias"))
+    key = (f, g["name"], cell["dims"], cell["data"], cell["seed"], cell.get("bias"), cell.get("share"), len(cell["outs"]) if cell.get("outs") is not None else None)
     try:
         if f == "D2BP":
-            config, tnc, omega = qbp.sample_d2bp(tn, max_iterations=MAXIT, tol=BP_TOL, seed=cell["seed"], messages=({} if cell.get("share") else None))
+            kw = {}
+            if cell.get("outs") is not None:
+                kw["output_inds"] = list(cell["outs"])
+            config, tnc, omega = qbp.sample_d2bp(tn, max_iterations=MAXIT, tol=BP_TOL, seed=cell["seed"], messages=({} if cell.get("share") else None), **kw)
         else:
             fn = qbp.sample_hd1bp if f == "HD1BP" else qbp.sample_hv1bp
             config, tnc, omega = fn(tn, max_iterations=MAXIT, tol=BP_TOL, seed=cell["seed"], bias=bool(cell.get("bias")))
@@ -937,10 +958,12 @@ def cell_sample(cell, common=None):
     res = []
     if f == "D2BP":
         outs = ex["outs"]
-        if set(config) != set(outs):
-            return table.bad(core.problem("%s sampled labels %r, expected %r" % (entry, sorted(config), outs), what="labels", **sig), sub=entry)
-        amp = ex["psi"][tuple(config[l] for l in outs)]
-        p = abs(amp) ** 2 / ex["N2"]
+        asked = list(cell["outs"]) if cell.get("outs") is not None else outs
+        if set(config) != set(asked):
+            return table.bad(core.problem("%s sampled labels %r, expected %r" % (entry, sorted(config), asked), what="labels", **sig), sub=entry)
+        # probability of the (partial) config: unsampled labels are summed
+        amp = ex["psi"][tuple(config[l] if l in config else slice(None) for l in outs)]
+        p = float(np.sum(np.abs(amp) ** 2)) / ex["N2"]
     else:
         labels = X.all_labels(arrs)
         if set(config) != set(labels):
@@ -1062,9 +1085,11 @@ def _domain(f, tier):
                 out.append(tree_geom(n, idx, e, fat="double"))
     else:
         for n, idx, e in trees:
-            for phys in ("all", "alt") + (("none",) if n <= 4 else ()):
+            for phys in ("all", "alt") + (("none",) if n <= 4 else ()) + (("op",) if (n <= 4 or not quick) else ()):
                 out.append(tree_geom(n, idx, e, phys=phys))
         if f == "L2BP":
+            for n, idx, e in all_trees(3 if quick else 4, 2):
+                out.append(tree_geom(n, idx, e, phys="op", fat="split"))
             for n, idx, e in all_trees(4 if quick else 5, 2):
                 out.append(tree_geom(n, idx, e, phys="all", fat="split"))
                 out.append(tree_geom(n, idx, e, phys="alt", fat="double"))
@@ -1138,7 +1163,7 @@ def cells_O(tier, flavours):
                                 c = {"f": f, "g": g, "ord": order, "dims": dims, "data": data, "exp": exp}
                                 c.update(b)
                                 if f in ("D2BP", "L2BP") and phys_labels(g) and g["cls"] != "lazy":
-                                    c["structured"] = 1 if (f == "D2BP" or g["name"].endswith(":all")) else 0
+                                    c["structured"] = 1 if (f == "D2BP" or g["name"].endswith((":all", ":op"))) else 0
                                 cells.append(c)
     return cells
 
@@ -1202,6 +1227,14 @@ def cells_M(tier):
                     for seed in range(2 if quick else 4):
                         for share in (0, 1):
                             cells.append({"f": "D2BP", "g": g, "ord": list(range(n)), "dims": dims, "data": data, "seed": seed, "share": share})
+        # tree 'operators': only the size-2 dangling labels are sampled, the
+        # size-3 ones stay open and are traced inside every marginal
+        g = tree_geom(n, idx, e, phys="op")
+        two = [l for l in out_labels(g) if l[0] in "kr"]
+        for data in ("signed", "complex"):
+            for seed in range(2 if quick else 4):
+                for outs in (two, [l for l in two if l[0] == "k"]):
+                    cells.append({"f": "D2BP", "g": g, "ord": list(range(n)), "dims": "3", "data": data, "seed": seed, "share": 1, "outs": outs})
     return cells
 
 
@@ -1248,7 +1281,7 @@ def run(ctx):
     ctx.bounds = {
         "trees": "every unlabelled tree on <= %d nodes in O (%d trees%s), <= %d in S" % (5 if quick else 6, len(all_trees(5 if quick else 6)), " + the 6-node path" if quick else "", 5 if quick else 6),
         "insertion_orders": "ALL n! orders for n <= %d%s; identity, reversal and all rotations above" % (4 if quick else 5, "" if quick else " (n = 6 too for D1BP/HD1BP/HV1BP, undamped)"),
-        "other_geometries": sorted(FORESTS) + sorted(HYPER) + ["lazy: split sites (2 tensors/site), doubled bonds", "physical labels: all / even sites / none"],
+        "other_geometries": sorted(FORESTS) + sorted(HYPER) + ["lazy: split sites (2 tensors/site), doubled bonds", "physical labels: all / even sites / none / op (k on every site + a size-3 label on even sites + a third label on site 0)"],
         "dims": "bond dimension 2, 3 and mixed 2/3 (HV1BP: uniform only)",
         "data": ["positive", "signed", "complex"],
         "exponent": [0.0, 0.5],
